@@ -693,6 +693,16 @@ def rule_integer_arrays_stay_integer(eng, rep, rule="C20-7.integer-valued-result
                 return dtype_of(fi, cfg, at, e.func.value, sn, depth)
             if fn == "astype" and e.args:
                 return "int" if ekey(e.args[0]) in ("int", "np.int64") else ("float" if ekey(e.args[0]) == "float" else None)
+            if fn in ("concatenate", "hstack") and e.args and isinstance(e.args[0], (ast.Tuple, ast.List)):
+                parts = []
+                for part in e.args[0].elts:
+                    if isinstance(part, (ast.List, ast.Tuple)) and part.elts:
+                        parts += [dtype_of(fi, cfg, at, x, sn, depth) for x in part.elts]
+                    else:
+                        parts.append(dtype_of(fi, cfg, at, part, sn, depth))
+                if "float" in parts:
+                    return "float"
+                return "int" if "int" in parts else None
             if fn == "append" and len(e.args) >= 2:
                 a0 = dtype_of(fi, cfg, at, e.args[0], sn, depth)
                 a1 = dtype_of(fi, cfg, at, e.args[1], sn, depth)
